@@ -132,6 +132,18 @@ pub fn run(ctx: &Ctx, rep: &Report) {
         let nweeks = (end - GPS_EPOCH) / 604_800 + 1;
         scan(nweeks * 41, &|i| (GPS_EPOCH - 18 + (i / 41) * 604_800 + (i % 41)).saturating_sub(20).max(GPS_EPOCH), "week:±20s-around-every-boundary");
     }
+    // beyond 2100: +-20 s around every week boundary up to the year 9999, and around the powers of two
+    // where a narrower integer type would wrap (2^31, 2^32, 2^33, 2^36)
+    {
+        let far: u64 = 253_402_300_800; // 10000-01-01
+        let first = (end - GPS_EPOCH) / 604_800;
+        let nweeks = (far - GPS_EPOCH) / 604_800 - first;
+        scan(nweeks * 41, &|i| GPS_EPOCH - 18 + (first + i / 41) * 604_800 + (i % 41) - 20, "week:+-20s-around-every-boundary-2100..9999");
+        for p in [31u32, 32, 33, 36] {
+            let c = 1u64 << p;
+            scan(2_000_001, &move |i| c - 1_000_000 + i, "week:+-1e6s-around-2^k");
+        }
+    }
     let nw = weeks.lock().unwrap().len() as u64;
     rep.nontriv(nw);
     rep.outcome("distinct-week-starts", nw);
